@@ -82,7 +82,7 @@ func main() {
 
 	// ------------------------------------------------------------------ (b) static reachability: runs beside the dynamic part
 	reachOut := filepath.Join(polyenv.TmpDir("c16"), "reach.json")
-	defer os.RemoveAll(filepath.Dir(reachOut))
+	scratch = append(scratch, filepath.Dir(reachOut))
 	type reachRes struct {
 		out []byte
 		err error
@@ -115,19 +115,20 @@ func main() {
 
 	sr := <-sitesCh
 	if sr.err != nil {
-		r.HarnessError("static map-site pass failed: %v", sr.err)
+		bail(r, "static map-site pass failed: %v", sr.err)
 	}
 	if len(sr.sites) < 25 {
-		r.HarnessError("static map-site pass implausible: %d sites in %d packages", len(sr.sites), sr.pkgs)
+		bail(r, "static map-site pass implausible: %d sites in %d packages", len(sr.sites), sr.pkgs)
 	}
 	siteEvidence(r, dyn, sr.sites, sr.pkgs)
 
 	if os.Getenv("VERIF_C16_DYNAMIC_ONLY") != "" { // development switch: the run then ends in the vacuity guard (static_done missing)
+		cleanScratch()
 		r.Finish(map[string]any{"rule": "dynamic part only (development run)", "map_order_executions": dyn.totalExec})
 	}
 	rr := <-reachCh
 	if rr.err != nil {
-		r.HarnessError("reach tool failed: %v: %s", rr.err, tailS(string(rr.out), 1500))
+		bail(r, "reach tool failed: %v: %s", rr.err, tailS(string(rr.out), 1500))
 	}
 	var reach struct {
 		Roots     []string `json:"roots"`
@@ -141,7 +142,7 @@ func main() {
 	}
 	b, _ := os.ReadFile(reachOut)
 	if json.Unmarshal(b, &reach) != nil || len(reach.Roots) < 20 || reach.Visited < 300 {
-		r.HarnessError("reach result implausible: roots=%d visited=%d", len(reach.Roots), reach.Visited)
+		bail(r, "reach result implausible: roots=%d visited=%d", len(reach.Roots), reach.Visited)
 	}
 	var nonContract []string
 	for _, s := range reach.Sites {
@@ -168,6 +169,7 @@ func main() {
 	r.Assume("map iteration: for maps with <= 8 entries the Go 1.23 runtime can only produce rotations of the slot order; all are explored at each site (deviation bound in evidence)",
 		"static part: CHA call graph (over-approximation); only repository functions are entered; third-party interiors are out of scope by the stated rule",
 		"scheduling: block execution is single-threaded (no goroutines are started by executeBlock or the native contracts)")
+	cleanScratch()
 	r.Finish(map[string]any{
 		"rule": fmt.Sprintf("(a) %d corpus blocks (%d transactions, %d contract methods) x every map-iteration site with >=2 entries x every rotation, deviation bound %d; (b) exhaustive reachability from %d roots",
 			dyn.blocks, dyn.txs, len(dyn.methods), dyn.bound, len(reach.Roots)),
@@ -178,6 +180,21 @@ func main() {
 		"map_order_executions":          dyn.totalExec,
 		"deviation_bound":               dyn.bound,
 	})
+}
+
+// Finish / HarnessError leave through os.Exit: deferred clean-up would never run, so scratch directories are removed explicitly.
+var scratch []string
+
+func cleanScratch() {
+	for _, d := range scratch {
+		os.RemoveAll(d)
+	}
+	scratch = nil
+}
+
+func bail(r *ev.Run, format string, a ...any) {
+	cleanScratch()
+	r.HarnessError(format, a...)
 }
 
 func parseDigest(s string) *digest {
